@@ -1102,6 +1102,35 @@ func ruleMapOrder(c *Ctx) {
 						if o := c.objOf(id); o != nil && o.Pos() > rs.Body.Pos() {
 							continue // declared inside the loop
 						}
+						// a flag: every assignment to it inside the loop stores the same constant, so the outcome does
+						// not depend on the order in which the entries come
+						if len(s.Rhs) > i {
+							if tv, isConst := c.Info.Types[s.Rhs[i]]; isConst && tv.Value != nil {
+								same := true
+								ast.Inspect(rs.Body, func(m ast.Node) bool {
+									as2, isAs := m.(*ast.AssignStmt)
+									if !isAs {
+										return true
+									}
+									for j, l2 := range as2.Lhs {
+										if id2, isId := unparen(l2).(*ast.Ident); isId && c.objOf(id2) == c.objOf(id) {
+											if j >= len(as2.Rhs) {
+												same = false
+												continue
+											}
+											tv2, isC2 := c.Info.Types[as2.Rhs[j]]
+											if !isC2 || tv2.Value == nil || tv2.Value.ExactString() != tv.Value.ExactString() {
+												same = false
+											}
+										}
+									}
+									return true
+								})
+								if same {
+									continue
+								}
+							}
+						}
 						ok2, why = false, "assigns "+id.Name+" in map iteration order"
 					}
 				case *ast.CallExpr:
